@@ -596,3 +596,7 @@ for _p in ("C01", "C05"):
 CHECKS["C09"]["units"].append(unit("./internal/storage/ledger", ["storage/bunhook.go", "storage/c10.go"], "^Harness_C10_", QT, flags={"labels": "^(C09:|no-panic)", "max-decisions": 4000}, reach=["end"]))
 CHECKS["C09"]["explanation"] += " Stored bytes (shared harness with C10): the memento the real InsertLog hands to its INSERT — which the database hashes verbatim — hashes, inside the SQL framing, to what Log.ComputeHash computes for the same log, for payloads of every log type with symbolic free-text fields (so also text that JSON encoders may or may not escape)."
 CHECKS["C09"]["outside"] = CHECKS["C09"]["outside"].replace("the hash value itself (opaque in the model: predecessor id only)", "the hash value in the concurrent model (opaque: predecessor id only; the stored bytes of a single log are covered)")
+
+CHECKS["C04"]["units"].append(py_unit("reads", "reads-C04", ["--props", "C04"]))
+CHECKS["C04"]["explanation"] += " Read side: the transactions listing with expand=effectiveVolumes, as emitted by the real store (with and without a PIT), evaluated on symbolic transactions / moves tables, reports for every listed transaction exactly the (account, asset) pairs it moved, each with the post-commit effective volumes recorded by the transaction's last move (greatest seq) on the pair."
+CHECKS["C04"]["outside"] = CHECKS["C04"]["outside"].replace("Moves.ComputePostCommitEffectiveVolumes and the transaction-level expand", "Moves.ComputePostCommitEffectiveVolumes")
